@@ -47,6 +47,18 @@ var c14classes = []c14class{
 		}
 	}, "f"},
 	{"directory", true, os.O_RDONLY, false, func(h, p string) { os.Mkdir(h, 0755) }, "f"},
+	{"symlink-to-regular(O_WRONLY|O_EXCL)", true, os.O_WRONLY | os.O_EXCL, false, func(h, p string) {
+		os.WriteFile(h+".target", []byte("t"), 0644)
+		os.Symlink(filepath.Base(p)+".target", h)
+	}, "f"},
+	{"symlink-to-host-file(O_RDONLY|O_EXCL)", true, os.O_RDONLY | os.O_EXCL, false, func(h, p string) { os.Symlink("/probe/burn", h) }, "f"},
+	{"fifo(O_RDONLY|O_EXCL)", true, os.O_RDONLY | os.O_EXCL, false, func(h, p string) { syscall.Mkfifo(h, 0666) }, "f"},
+	{"fifo(O_RDWR|O_TRUNC)", true, os.O_RDWR | os.O_TRUNC, false, func(h, p string) { syscall.Mkfifo(h, 0666) }, "f"},
+	{"existing(O_RDONLY|O_EXCL)", false, os.O_RDONLY | os.O_EXCL, false, func(h, p string) { os.WriteFile(h, []byte("data"), 0644) }, "f"},
+	{"symlink-to-regular(O_RDWR|O_APPEND|O_NONBLOCK)", true, os.O_RDWR | os.O_APPEND | syscall.O_NONBLOCK, false, func(h, p string) {
+		os.WriteFile(h+".target", []byte("t"), 0644)
+		os.Symlink(filepath.Base(p)+".target", h)
+	}, "f"},
 	{"mkdirall-blocked-by-file", true, os.O_CREATE | os.O_WRONLY, true, func(h, p string) {
 		// a regular file sits where a directory component is needed
 		os.WriteFile(filepath.Dir(filepath.Dir(h)), []byte("in the way"), 0644)
@@ -71,7 +83,7 @@ func init() {
 		}
 		spec := &mc.Spec{
 			Level: "exploration",
-			Rule: "Open: every batch of length 0…maxLen over 14 item classes (new file ± MkdirAll, missing parent, existing regular file read-only / write+truncate / read-write, planted symlink to a regular file / to a host file / dangling with O_CREAT, FIFO read and write, socket, directory, MkdirAll blocked by a planted file) on a real container whose tmpfs is prepared from the host side; plus batches of 253 and 254 successes; " +
+			Rule: "Open: every batch of length 0…maxLen over 20 item classes (new file ± MkdirAll, missing parent, existing regular file read-only / write+truncate / read-write, planted symlink to a regular file / to a host file / dangling with O_CREAT, FIFO read and write, socket, directory, MkdirAll blocked by a planted file) on a real container whose tmpfs is prepared from the host side; plus batches of 253 and 254 successes; " +
 				"Symlink: every batch ≤ maxLen over {new, existing path, missing parent}; Delete: file, empty dir, non-empty dir, missing, planted symlink. Oracle: len(results)=len(batch); result k is an error iff item k's class must fail; a returned file k has the (dev, ino) of the object at path k seen from the host, the requested access mode and close-on-exec; the call returns within the horizon; other items and a following Ping are unaffected; nothing planted is followed. " +
 				"non-trivial: the batch mixes successes and failures or contains a planted object; distinct = (batch, per-item outcome)",
 			Bound:       map[string]any{"max_len": maxLen, "classes": len(c14classes)},
@@ -139,7 +151,16 @@ func c14env(x *mc.X) (container.Environment, string, bool) {
 	return c, fmt.Sprintf("/proc/%d/root", pid), true
 }
 
+// classes already seen to block the call in this worker: every further batch containing one would cost a whole horizon
+var c14blocking = map[string]bool{}
+
 func c14open(x *mc.X, batch []int) {
+	for _, ci := range batch {
+		if c14blocking[c14classes[ci].name] && len(batch) > 1 {
+			x.Outcome("skipped:contains-a-class-already-reported-to-block")
+			return
+		}
+	}
 	c, root, ok := c14env(x)
 	if !ok {
 		return
@@ -163,6 +184,11 @@ func c14open(x *mc.X, batch []int) {
 	ctx := fmt.Sprintf("Open batch %v", names)
 	if !returned {
 		x.Failf("C14/open/blocks/"+strings.Join(names, "+"), "%s did not return within the horizon (blocked on a planted object?)", ctx)
+		for _, ci := range batch {
+			if c14classes[ci].fails {
+				c14blocking[c14classes[ci].name] = true
+			}
+		}
 		c14pool.drop()
 		return
 	}
